@@ -179,7 +179,7 @@ class C15(Check):
                 res.nontrivial.add(h64(repr(case)))
                 res.hist['nontrivial'] += 1
                 if len(res.samples) < 1 and not parsed:
-                    res.sample({'tree': repr(root)[:300], 'events': len(list(mod.traverse(root)))})
+                    res.sample({'tree': trees.safe_repr(root)[:300], 'events': len(list(mod.traverse(root)))})
             res.hist['parsed' if parsed else 'constructed'] += 1
             if bad:
                 res.mismatch(case)
@@ -202,7 +202,7 @@ class C15(Check):
         bad = check_tree(mod, root)
         if bad is None:
             return None
-        return {'bucket': bad[0], 'detail': bad[1], 'tree': repr(root)[:500]}
+        return {'bucket': bad[0], 'detail': bad[1], 'tree': trees.safe_repr(root)[:500]}
 
     def shrink(self, case, still_fails, deadline):
         if 'deep' in case:
@@ -216,7 +216,7 @@ class C15(Check):
         if 'deep' in case:
             return dict(case)
         mod = trees.get_module()
-        return {'tree': repr(trees.build(case['spec'], mod))[:800], 'parsed': case.get('parsed')}
+        return {'tree': trees.safe_repr(trees.build(case['spec'], mod))[:800], 'parsed': case.get('parsed')}
 
 
 if __name__ == '__main__':
